@@ -70,3 +70,27 @@ PROPS["C14"] = {"pkgs": [(".", "TestVerif_C14")],
                                  "client against a real server over virtual hours, not proved",
                                  "loss schedules drop up to five transmissions of a request and up to two responses, never all"],
                 "assumptions": ["interval + 2 x 23.4 s < timeout for each (driver, server timer) pair: the meaning given to 'compatible configuration'"]}
+
+PROPS["C18"] = {"pkgs": [("./internal/allocation", "TestVerif_C18TD")],
+                "pre": "c18:pre",
+                "trusted_base": ["translator/lockskel (Go, go/parser + go/types): recognition of Lock/Unlock/RLock/RUnlock calls (also deferred and "
+                                 "through embedding), of reads and writes of the fields named in translator/lockskel/guards.txt, of calls between "
+                                 "functions of the module, and the shaping of if/for/range/switch/select/break/continue/return into LockSkel.cmd; "
+                                 "it fails closed on constructs it does not know, and its self-test corpus (Good*/Bad* functions, two cyclic "
+                                 "programs) is run through the Coq checker on every run",
+                                 "translator/lockskel/guards.txt: which mutex guards which field, which functions document 'caller holds the lock', "
+                                 "which constructors are exempt - taken from comments in the source, not verified",
+                                 "locks and fields are identified per type (Manager.lock, Allocation.permissionsLock ...), not per object; "
+                                 "callbacks through function values and interface calls are opaque; channel operations, WaitGroups and atomics "
+                                 "are not modelled (a deadlock through a channel is outside the theorem; the forced-schedule harness and its "
+                                 "real-time watchdog look for those)",
+                                 "Go's memory model itself: 'every access to a guarded field happens with its mutex held' is the Eraser-style "
+                                 "sufficient condition, proved for the declared fields only; the thorough tier additionally runs the schedules "
+                                 "under the race detector",
+                                 "Model/Teardown.v is hand-written; its step orders are extracted from the source by the translator on every run "
+                                 "and its behaviour is compared with the real Manager/Allocation on forced schedules (threads parked inside the "
+                                 "lifecycle callbacks, timers fired by the virtual clock)"],
+                "assumptions": ["application callbacks do not re-enter the library while it holds a lock "
+                                "(OnPermissionDeleted runs under permissionsLock, OnChannelCreated/OnChannelDeleted and the nested "
+                                "OnPermissionCreated under channelBindingsLock, all Deleted callbacks of a closing allocation under Manager.lock)",
+                                "one closer at a time in the forced schedules (Manager.lock serialises DeleteAllocation / Manager.Close)"]}
